@@ -293,6 +293,56 @@ fn ark_extras<F: FL>(ctx: &Ctx, rec: &mut Rec) {
                     }
                 }
             }
+            // hostile flagged encodings: the value part (flag bits masked off) at and around p
+            {
+                fn try_flags<F: ark_ff::PrimeField, FL: Flags>(bytes: &[u8]) -> Option<(F, u8)> {
+                    F::deserialize_with_flags::<_, FL>(bytes).ok().map(|(v, fl)| (v, fl.u8_bitmask()))
+                }
+                let spare = 8 * n - f.bits;
+                let hostile: Vec<B> = vec![v.clone(), v + &f.p, &f.p - b(1), f.p.clone(), &f.p + b(1), (b(1) << f.bits) - b(1)];
+                for hv in hostile {
+                    if hv.bits() as usize > 8 * n {
+                        continue;
+                    }
+                    for (fname, fbits, masks) in [("TEFlags", 1usize, vec![0u8, 0x80]), ("SWFlags", 2usize, vec![0u8, 0x80, 0x40, 0xc0]), ("EmptyFlags", 0usize, vec![0u8])] {
+                        for mask in masks {
+                            // flags live in the top bits of the last byte when they fit, else in an extra byte
+                            let mut bytes = to_le(&hv, n);
+                            let in_last = spare >= fbits;
+                            if in_last {
+                                if (bytes[n - 1] & (0xffu16 << (8 - fbits.max(1))) as u8) != 0 && fbits > 0 {
+                                    continue; // the value itself occupies flag bit positions
+                                }
+                                bytes[n - 1] |= mask;
+                            } else {
+                                bytes.push(mask);
+                            }
+                            let b2 = bytes.clone();
+                            let got = guarded(|| match fname {
+                                "TEFlags" => try_flags::<F, TEFlags>(&b2),
+                                "SWFlags" => try_flags::<F, SWFlags>(&b2),
+                                _ => try_flags::<F, EmptyFlags>(&b2),
+                            });
+                            rec.form(&nm(&format!("(de)serialize_with_flags<{fname}>")));
+                            rec.eval(&(F::NAME, "hostile-flags", bytes.clone(), fname), false);
+                            let want_ok = hv < f.p && !(fname == "SWFlags" && mask == 0xc0);
+                            match got {
+                                Err(pn) => rec.violation(format!("{P}:{}:panic", nm("deserialize_with_flags")), pn, json!({"bytes": hx(&bytes)})),
+                                Ok(r) => {
+                                    let ok = r.is_some();
+                                    if ok != want_ok {
+                                        rec.violation(format!("{P}:{}:{}", nm(&format!("deserialize_with_flags<{fname}>")), if ok { "accepts-non-canonical" } else { "rejects-canonical" }), format!("flagged encoding {} (value part {} p, flag mask {mask:#x})", hx(&bytes), if hv < f.p { "<" } else { ">=" }), json!({"bytes": hx(&bytes)}));
+                                    } else if let Some((val, fl)) = r {
+                                        if val.to_b() != hv || fl != mask {
+                                            rec.violation(format!("{P}:{}:wrong-value-or-flags", nm(&format!("deserialize_with_flags<{fname}>"))), format!("flagged encoding {} parsed to value {} flags {fl:#x}", hx(&bytes), hexs(&val.to_b())), json!({}));
+                                        }
+                                    }
+                                }
+                            }
+                        }
+                    }
+                }
+            }
             // FromStr(decimal) and Display round trip
             rec.form(&nm("FromStr"));
             let dec = v.to_str_radix(10);
